@@ -793,6 +793,38 @@ fn floats(out: &mut Vec<Decl>) {
                 out.push(with_derives(d, &[Tr::Debug, Tr::Arbitrary]));
             }
         }
+        // bounds spelled as expressions with a top-level operator, in every position the generator re-uses them
+        // (`upper - lower`, `|basic| + lower`, `next_up(bound)`)
+        {
+            let exprs: Vec<(&str, String, f64)> = vec![
+                ("sub", "KB - 90.0".into(), 10.0),
+                ("add", "KA + 1.5".into(), 6.5),
+                ("neg", "-KA".into(), -5.0),
+                ("mul", "KA * 2.0".into(), 10.0),
+                ("div", "KB / 8.0".into(), 12.5),
+                ("if-expr", "if KA > 3.0 { 9.0 } else { 1.0 }".into(), 9.0),
+                ("cast", format!("KA as f64 as {ty}"), 5.0),
+            ];
+            for (ei, (class, text, v)) in exprs.iter().enumerate() {
+                let b = || expr_f(class, text, *v);
+                for (ki, mut vals) in [
+                    vec![ValSpec::Greater(b())],
+                    vec![ValSpec::Less(b())],
+                    vec![ValSpec::Greater(b()), ValSpec::LessEq(lit_f(50.0))],
+                    vec![ValSpec::GreaterEq(lit_f(-20.0)), ValSpec::Less(b())],
+                    vec![ValSpec::LessEq(b()), ValSpec::GreaterEq(expr_f("neg", "-KB", -100.0))],
+                ]
+                .into_iter()
+                .enumerate()
+                {
+                    if (ei + ki) % 2 == 0 {
+                        vals.insert(ki % (vals.len() + 1), ValSpec::Finite);
+                    }
+                    let d = std(Decl::new(inner), vals).tag(&format!("float-arb-precedence:{class}:{ki}"));
+                    out.push(with_derives(d, &[Tr::Debug, Tr::TryFrom, Tr::Arbitrary]));
+                }
+            }
+        }
         // narrow and degenerate two-sided ranges at values that are not dyadic rationals: any rounding in
         // the generator's interpolation lands outside
         for (mi, (mag, lo, hi)) in [("pinned", 0.1, 0.1), ("pinned-neg", -36.6, -36.6), ("narrow", 0.7, 0.70001), ("narrow-neg", -0.30001, -0.3), ("narrow-large", 16777216.0, 16777220.0), ("ulp", 1.0, 1.0000001)]
